@@ -164,12 +164,12 @@ def finish(module, repo: Optional[Repo], res: Result, tier: str, seed: int, t0: 
 
     no_files = bool(os.environ.get("VERIF_NOEVIDENCE"))  # scratch runs (seeded changes) must not touch evidence/
     replay_paths = []
-    if violations and not res.errors and no_files:
+    if violations and no_files:
         for i, (o, _) in enumerate(violations, 1):
             print(f"{o['where']}  {o['rule']}  in {o['site']}\n    construct: {o['shown']}\n"
                   f"    expected : {o['expected']}\n    found    : {o['found']}")
             print(f"VIOLATION property={pid} replay=<not written: VERIF_NOEVIDENCE>")
-    if violations and not res.errors and not no_files:
+    if violations and not no_files:
         rdir = os.path.join(ev_dir, "replay")
         os.makedirs(rdir, exist_ok=True)
         for i, (o, _) in enumerate(violations, 1):
@@ -221,19 +221,21 @@ def finish(module, repo: Optional[Repo], res: Result, tier: str, seed: int, t0: 
         "coverage": coverage,
         "assumptions": list(getattr(module, "ASSUMPTIONS", [])) + COMMON_ASSUMPTIONS,
         "wall_s": round(time.time() - t0, 3),
-        "violations": len(violations) if not res.errors else 0,
+        "violations": len(violations),
     }
     if replay is None and not no_files:
         with open(os.path.join(ev_dir, f"{pid}.json"), "w") as f:
             json.dump(evidence, f, indent=1, sort_keys=False)
             f.write("\n")
 
+    if violations:
+        # a rule that reached a verdict keeps it even when another rule of the same check could not be analysed
+        print(f"RESULT {pid}: {len(violations)} violation(s), {len(knowns)} known finding(s)"
+              + (f"; {len(res.errors)} rule(s) could not be analysed" if res.errors else ""))
+        return 1
     if res.errors:
         print(f"RESULT {pid}: analysis broken ({len(res.errors)} error(s)) -- no verdict")
         return 2
-    if violations:
-        print(f"RESULT {pid}: {len(violations)} violation(s), {len(knowns)} known finding(s)")
-        return 1
     if knowns:
         print(f"RESULT {pid}: no unlisted violation; {discharged} of {len(res.obligations)} rule instances hold, "
               f"{len(knowns)} known finding(s) listed")
